@@ -326,22 +326,42 @@ func c11key(p *Program, r *Report, rule string) {
 		return
 	}
 	p.forAllPaths(r, rule, fn, "base64(SHA-1(key ‖ GUID))", Opts{},
-		"secWebSocketAccept hashes the key then the GUID with SHA-1 and returns the standard base64 encoding of the sum", func(pa *Path) (bool, string) {
-			var seq []string
+		"secWebSocketAccept feeds a fresh SHA-1 with the key and then the GUID (nothing else, in that order) and returns the standard base64 encoding of Sum(nil)", func(pa *Path) (bool, string) {
+			nw := pa.Calls("sha1.New")
+			if len(nw) != 1 {
+				return false, "no sha1.New()"
+			}
+			h := nw[0].Res.Key()
+			norm := func(a AV) string {
+				a = stripConvAll(a)
+				return a.Key()
+			}
+			var feeds []string
+			var sum *Event
 			for _, e := range pa.Events {
-				if e.Kind == "call" {
-					seq = append(seq, expandCalls(pa, e.Callee+"("+argKey(e, len(e.Args)-1)+")"))
-					_ = seq
+				if e.Kind != "call" {
+					continue
+				}
+				switch {
+				case e.Callee == "invoke hash.Hash.Write" && argKey(e, 0) == h:
+					feeds = append(feeds, norm(e.Args[1]))
+				case (e.Callee == "io.WriteString" || e.Callee == "invoke io.Writer.Write") && argKey(e, 0) == h:
+					feeds = append(feeds, norm(e.Args[1]))
+				case e.Callee == "invoke hash.Hash.Sum" && argKey(e, 0) == h:
+					sum = e
+				case e.Callee == "invoke hash.Hash.Reset":
+					return false, "hash reset"
 				}
 			}
-			got := strings.Join(seq, " ; ")
-			want := `sha1.New() ; invoke hash.Hash.Write(convert:[]byte(param:secWebSocketKey)) ; invoke hash.Hash.Write(G:websocket.keyGUID) ; invoke hash.Hash.Sum(nil) ; (*base64.Encoding).EncodeToString(invoke hash.Hash.Sum(sha1.New(),nil))`
-			if got != want {
-				return false, "sequence: " + got
+			if strings.Join(feeds, " ; ") != "param:secWebSocketKey ; G:websocket.keyGUID" {
+				return false, "hash input sequence: " + strings.Join(feeds, " ; ")
+			}
+			if sum == nil || argKey(sum, 1) != "nil" {
+				return false, "Sum(nil) missing"
 			}
 			enc := pa.Calls("(*base64.Encoding).EncodeToString")
-			if len(enc) != 1 || argKey(enc[0], 0) != "G:base64.StdEncoding" || pa.Ret[0].Key() != enc[0].Res.Key() {
-				return false, "not StdEncoding or result not returned"
+			if len(enc) != 1 || argKey(enc[0], 0) != "G:base64.StdEncoding" || argKey(enc[0], 1) != sum.Res.Key() || pa.Ret[0].Key() != enc[0].Res.Key() {
+				return false, "result is not StdEncoding(Sum(nil))"
 			}
 			return true, ""
 		})
